@@ -5,7 +5,7 @@ optimum of the general form.
 specs/lp/LpDefs.tla   exact LP semantics over integer data: every basis, integer determinants, Cramer;
                       the four classes stated independently; optimum = least cost over all feasible bases
 specs/lp/Lp.tla       bounded spaces of standard-form programs (exhaustive small, seeded pseudo-random up to
-                      4x7 incl. slack form [R|I], classic cycling examples in all 24 column orders) + theorems TLC checks on every
+                      4x7 incl. slack form [R|I], classic cycling examples in all 24 column orders x 2 slack layouts) + theorems TLC checks on every
                       generated program (Exclusive, ClassAgrees, CertValue, WeakDuality, Shape, Invariance)
 specs/lp/LpConvert.tla general-form programs classified on the general form (vertices and extreme rays) +
                       theorem ConvertPreserves (textbook standard form has the same class and optimum)
@@ -26,8 +26,10 @@ PROPOSED_KNOWN = [
      "match": r"^lp:simplex:(ib|nil|conv):hang:wide:degenerate$",
      "what": "lp.Simplex cycles forever at a degenerate vertex: replaceBland (optimize/convex/lp/simplex.go) applies "
              "Bland's rule to POSITIONS in nonBasicIdx/basicIdxs, which are permuted by every swap, not to variable "
-             "indices (e.g. Chvatal's example c=[-10,57,9,24,0,0,0] A=[[1,-11,-5,18,1,0,0],[1,-3,-1,2,0,1,0],"
-             "[1,0,0,0,0,0,1]] b=[0,0,1] tol=1e-10 initialBasic=[0,1,3]: period-12 cycle, optimum is -1)"},
+             "indices (e.g. Chvatal's example with the slack columns first, no initial basis: c=[0,0,0,9,24,57,-10] "
+             "A=[[1,0,0,-5,18,-11,1],[0,1,0,-1,2,-3,1],[0,0,1,0,0,0,1]] b=[0,0,1] tol=1e-10 initialBasic=nil never "
+             "returns, optimum is -1; slack columns last: c=[-10,57,9,24,0,0,0] A=[[1,-11,-5,18,1,0,0],"
+             "[1,-3,-1,2,0,1,0],[1,0,0,0,0,0,1]] initialBasic=[0,1,3]: period-12 cycle)"},
     {"id": "C19-LP2", "status": "known",
      "match": r"^lp:simplex:nil:error-on-optimal:ErrInfeasible:square:degenerate$",
      "what": "lp.Simplex, m == n path (simplex.go: 'if v < 0 { return ErrInfeasible }' after SolveVec) has no "
@@ -143,13 +145,13 @@ def run_lp(ctx):
         for sh in range(ns):
             thunks.append(lambda name=name, spec=spec, cfg=cfg, sub=sub, sh=sh, ns=ns: one(name, spec, cfg, sub, sh, ns))
 
-    # classic cycling examples, all 24 orders of the structural columns; small files so that the
-    # hang budget of one replay process does not hide the remaining programs
+    # classic cycling examples, all 24 orders of the structural columns x {slack columns last, first};
+    # small files so that the hang budget of one replay process does not hide the remaining programs
     def named():
-        s = dict(_std("named", 3, 7, (0, 0), (0, 0), (0, 0), 72), SHARD=0, NSHARDS=1, EMIT="TRUE", SEED=0, EXTRA="")
-        cases = ctx.gen("lp/Lp.tla", "lp/Lp.cfg", subst=s, name="R1+R2 gen classics (Chvatal, Beale, Kuhn) x 24 column orders")
+        s = dict(_std("named", 3, 7, (0, 0), (0, 0), (0, 0), 144), SHARD=0, NSHARDS=1, EMIT="TRUE", SEED=0, EXTRA="")
+        cases = ctx.gen("lp/Lp.tla", "lp/Lp.cfg", subst=s, name="R1+R2 gen classics (Chvatal, Beale, Kuhn) x 24 column orders x 2 slack layouts")
         lines = open(cases).read().splitlines()
-        per = 6 if th else 24
+        per = 6 if th else 48
         for i in range(0, len(lines), per):
             part = os.path.join(ctx.work, "named-%d.ndjson" % i)
             with open(part, "w") as fh:
